@@ -153,6 +153,12 @@ func (m *Machine) vocab(name string) (Intrinsic, bool) {
 			m.finishInline(it, rr, nil)
 			return false
 		}, true
+	case "vSincePositive":
+		return func(m *Machine, wl *worklist, it *Item, fn *ssa.Function, args []Value, rr int) bool {
+			m.SincePositive = true
+			m.finishInline(it, rr, nil)
+			return false
+		}, true
 	case "vSliceCap":
 		return func(m *Machine, wl *worklist, it *Item, fn *ssa.Function, args []Value, rr int) bool {
 			k, _ := args[0].(T).Int64()
@@ -198,6 +204,58 @@ func (m *Machine) vocab(name string) (Intrinsic, bool) {
 				}
 			}
 			m.fail("ghost record %s #%d not found", tag, ri)
+			return false
+		}, true
+	case "vGhostPut":
+		// vGhostPut(tag string, v int64): append to the ghost array tag (guarded by the path)
+		return func(m *Machine, wl *worklist, it *Item, fn *ssa.Function, args []Value, rr int) bool {
+			tag := m.strArg(args[0], fn, it, 0)
+			m.ghostLog = append(m.ghostLog, ghostRec{it.G, "put:" + tag, []Value{args[1]}})
+			m.finishInline(it, rr, nil)
+			return false
+		}, true
+	case "vGhostPutF":
+		return func(m *Machine, wl *worklist, it *Item, fn *ssa.Function, args []Value, rr int) bool {
+			tag := m.strArg(args[0], fn, it, 0)
+			m.ghostLog = append(m.ghostLog, ghostRec{it.G, "putf:" + tag, []Value{args[1]}})
+			m.finishInline(it, rr, nil)
+			return false
+		}, true
+	case "vGhostLen":
+		// number of records put under this tag along the current path
+		return func(m *Machine, wl *worklist, it *Item, fn *ssa.Function, args []Value, rr int) bool {
+			tag := m.strArg(args[0], fn, it, 0)
+			n := m.IntC(0)
+			for _, r := range m.ghostLog {
+				if r.tag == "put:"+tag || r.tag == "putf:"+tag {
+					n = m.add(n, c.Ite(r.g, m.IntC(1), m.IntC(0)))
+				}
+			}
+			m.finishInline(it, rr, m.Restrict(it.G, n))
+			return false
+		}, true
+	case "vGhostAt", "vGhostAtF":
+		// vGhostAt(tag, i): the i-th record (counting only records whose guard holds on this path); i constant
+		return func(m *Machine, wl *worklist, it *Item, fn *ssa.Function, args []Value, rr int) bool {
+			tag := m.strArg(args[0], fn, it, 0)
+			want, _ := args[1].(T).Int64()
+			pre := "put:"
+			var res Value = m.IntC(0)
+			if name == "vGhostAtF" {
+				pre = "putf:"
+				res = m.ZeroValue(types.Typ[types.Float64])
+			}
+			// position of each record along the path = number of earlier records whose guard holds
+			cnt := m.IntC(0)
+			for _, r := range m.ghostLog {
+				if r.tag != pre+tag {
+					continue
+				}
+				here := c.And(r.g, c.Eq(cnt, m.IntC(want)))
+				res = m.Merge(here, r.vals[0], res)
+				cnt = m.add(cnt, c.Ite(r.g, m.IntC(1), m.IntC(0)))
+			}
+			m.finishInline(it, rr, m.Restrict(it.G, res))
 			return false
 		}, true
 	case "vNoWrap":
